@@ -1,6 +1,7 @@
 import Driver.Proto
 import PqModel.Rle
 import PqModel.RleDecode
+import PqModel.RleBoolBytes
 
 namespace Driver.Ops.C04Rle
 open Driver PqModel.Rle
@@ -79,6 +80,14 @@ def handle (toks : List String) : Option String :=
     match parseHex? hex with
     | some bs => showBytes (goDecodeBoolean (bytesOf bs))
     | none => "bad-op"
+  -- `rle.godecboolbytes <stale byte> <hex>`: the BYTE-level mirror of DecodeBoolean over a
+  -- destination whose spare capacity is filled with the given byte
+  | ["rle.godecboolbytes", st, hex] => some <|
+    match parseNat? st, parseHex? hex with
+    | some st, some bs =>
+      let bs := bytesOf bs
+      showBytes (goDecodeBooleanBytes (List.replicate (8 * bs.length + 8256) st) bs)
+    | _, _ => "bad-op"
   | ["bitpacked.specdec", w, n, hex] => some <|
     match parseNat? w, parseNat? n, parseHex? hex with
     | some w, some n, some bs => showVals (specDecodeBitPacked w n (bytesOf bs))
